@@ -330,3 +330,41 @@ Proof.
   destruct (andb rc (andb (getv st (fst r)) o)); [|reflexivity].
   destruct (H r (or_introl eq_refl)) as [A B]. rewrite getv_setv_other by exact B. apply getv_setv_other. exact A.
 Qed.
+
+(* ------------------------------------------------------------------ Dx.administer *)
+Lemma dx_fold_le rows : forall acc, (fold_left dx_step rows acc <= acc)%nat.
+Proof. induction rows as [|[b c] t IH]; intros acc; cbn [fold_left]; [lia|]. unfold dx_step at 2; cbn [fst snd]. destruct b; [eapply Nat.le_trans; [apply IH|apply Nat.le_min_r]|apply IH]. Qed.
+Lemma dx_result_in_hierarchy default rows : (dx_agent default rows <= default)%nat.
+Proof. apply dx_fold_le. Qed.
+Lemma dx_no_state_default default rows : (forall r, In r rows -> fst r = false) -> dx_agent default rows = default.
+Proof.
+  unfold dx_agent. revert default. induction rows as [|[b c] t IH]; intros d H; cbn [fold_left]; [reflexivity|].
+  unfold dx_step at 2; cbn [fst snd]. pose proof (H (b, c) (or_introl eq_refl)) as Hb. cbn in Hb. subst b. apply IH. intros r Hr. apply H. right. exact Hr.
+Qed.
+Lemma dx_fold_min rows : forall acc, fold_left dx_step rows acc =
+  Nat.min acc (fold_left dx_step rows acc).
+Proof. intros acc. pose proof (dx_fold_le rows acc). lia. Qed.
+(* the result is a lower bound of every applicable drawn category, and is attained: it is their minimum (with the default) *)
+Lemma dx_lower_bound default rows r : In r rows -> fst r = true -> (dx_agent default rows <= snd r)%nat.
+Proof.
+  unfold dx_agent. revert default. induction rows as [|[b c] t IH]; intros d Hin Hb; [destruct Hin|]. cbn [fold_left]. unfold dx_step at 2; cbn [fst snd].
+  destruct Hin as [E|Hin].
+  - subst r. cbn [fst snd] in *. subst b. eapply Nat.le_trans; [apply dx_fold_le|apply Nat.le_min_l].
+  - apply IH; assumption.
+Qed.
+Lemma dx_attained default rows : dx_agent default rows = default \/ exists r, In r rows /\ fst r = true /\ dx_agent default rows = snd r.
+Proof.
+  unfold dx_agent. revert default. induction rows as [|[b c] t IH]; intros d; cbn [fold_left]; [left; reflexivity|]. unfold dx_step at 2 4; cbn [fst snd].
+  destruct b.
+  - destruct (IH (Nat.min c d)) as [E|(r & Hr & Hb & E)].
+    + destruct (Nat.min_dec c d) as [M|M]; rewrite M in E.
+      * right. exists (true, c). split; [left; reflexivity|]. split; [reflexivity|]. rewrite M. exact E.
+      * left. rewrite M. exact E.
+    + right. exists r. split; [right; exact Hr|]. split; [exact Hb|exact E].
+  - destruct (IH d) as [E|(r & Hr & Hb & E)]; [left; exact E|right; exists r; split; [right; exact Hr|split; [exact Hb|exact E]]].
+Qed.
+(* every tested agent lands in exactly one category of the returned dictionary; nobody else appears in it *)
+Lemma dx_groups_partition res u c : In (u, c) res -> In u (dx_group c res).
+Proof. intros H. unfold dx_group. apply in_map_iff. exists (u, c). split; [reflexivity|]. apply filter_In. split; [exact H|cbn; apply Nat.eqb_refl]. Qed.
+Lemma dx_groups_sound res u k : In u (dx_group k res) -> In (u, k) res.
+Proof. unfold dx_group. intros H. apply in_map_iff in H as ([u' c] & E & H). cbn in E. subst u'. apply filter_In in H as [H B]. cbn in B. apply Nat.eqb_eq in B. subst c. exact H. Qed.
